@@ -132,9 +132,22 @@ def parse_unit(path):
             u.name = words[1]
             i += 1
         elif d == "@include":
-            sub = parse_unit(os.path.join(os.path.dirname(path), words[1]))
+            inc, _, iopt = ln[len("@include"):].partition("|")
+            sub = parse_unit(os.path.join(os.path.dirname(path), inc.strip()))
+            if "assume" in iopt.split():
+                # modular reuse: the included unit's functions are verified in their own unit; here only their
+                # contracts are used (bodies elided, T5) - recorded as "contract proved in unit <name>"
+                for ent in sub.entries:
+                    if ent[0] == "fn":
+                        ent[1].opts["external_body"] = True
+                        ent[1].opts["proved_in"] = sub.name
+                        ent[1].loops = {}
+                        ent[1].proofs = []
+                        ent[1].rewrites = [r for r in ent[1].rewrites if r[0] in ("N9",)]
             u.entries += sub.entries
             u.pathmap += sub.pathmap
+            u.autoproof += [x for x in sub.autoproof if x not in u.autoproof]
+            u.autoinv += [x for x in sub.autoinv if x not in u.autoinv]
             for a_ in sub.allow:
                 u.allow.append(a_)
             i += 1
@@ -360,14 +373,7 @@ def common_rewrites(ctx, sf, a, b, item_kind, opts):
                 k = pair[k + 1]
             k += 1
             continue
-        # N10: all extracted items live in one module: `super::` / `self::` path prefixes are dropped and the
-        # unit's @pathmap prefixes are rewritten (path resolution has no run-time meaning)
-        if t.kind == "id" and t.text in ("super", "self") and toks[k + 1].text == "::" and toks[k - 1].text not in ("::", "(") \
-                and toks[k + 2].kind == "id":
-            edits.append(Edit(t.start, toks[k + 1].end, ""))
-            ctx.fire("N10", sf, t.start, f"{t.text}:: dropped")
-            k += 2
-            continue
+        # N10 (pathmap part): unit-specific path prefixes
         if t.kind == "id" and toks[k - 1].text != "::" and ctx.pathmap:
             hit = False
             for lhs_toks, rhs in ctx.pathmap:
@@ -380,6 +386,14 @@ def common_rewrites(ctx, sf, a, b, item_kind, opts):
                     break
             if hit:
                 continue
+        # N10: all extracted items live in one module: `super::` / `self::` path prefixes are dropped and the
+        # unit's @pathmap prefixes are rewritten (path resolution has no run-time meaning)
+        if t.kind == "id" and t.text in ("super", "self") and toks[k + 1].text == "::" and toks[k - 1].text not in ("::", "(") \
+                and toks[k + 2].kind == "id":
+            edits.append(Edit(t.start, toks[k + 1].end, ""))
+            ctx.fire("N10", sf, t.start, f"{t.text}:: dropped")
+            k += 2
+            continue
         # N2: static -> const (immutable tables)
         if t.kind == "id" and t.text == "static" and toks[k + 1].text != "mut" and toks[k - 1].text != "'" \
                 and toks[k + 1].kind == "id" and toks[k + 2].text == ":":
@@ -493,8 +507,18 @@ def common_rewrites(ctx, sf, a, b, item_kind, opts):
         if t.kind == "id" and t.text == "Err" and toks[k + 1].text == "(":
             close = pair[k + 1]
             inner = toks[k + 2:close]
+            def pure_path_or_literal_ctor(ts):
+                # Path  |  Path(lit, lit, ..)   -- nothing that could be evaluated with an effect or a panic
+                j_ = 0
+                while j_ < len(ts) and (ts[j_].kind == "id" or ts[j_].text == "::"):
+                    j_ += 1
+                if j_ == len(ts):
+                    return j_ > 0
+                if ts[j_].text != "(" or ts[-1].text != ")":
+                    return False
+                return all(x.kind in ("str", "num", "char") or x.text == "," for x in ts[j_ + 1:-1])
             if len(inner) >= 5 and [x.text for x in inner[-4:]] == [".", "into", "(", ")"] \
-                    and all(x.kind == "id" or x.text == "::" for x in inner[:-4]):
+                    and pure_path_or_literal_ctor(inner[:-4]):
                 edits.append(Edit(toks[k + 2].start, toks[close - 1].end, "opaque_error(())"))
                 ctx.fire("N6", sf, t.start, "Err(path.into())")
                 k = close + 1
@@ -838,7 +862,8 @@ def build_fn(ctx, unit, fs):
     info = dict(label=fn_label, file=file_rel, line=sf.line_of(toks[q].start), end_line=sf.line_of(it.end),
                 impl=parent_impl, hash=span_hash, tags=(fs.opts.get("tags") or "").split(",") if fs.opts.get("tags") else [],
                 n_requires=len(fs.requires), n_ensures=len(fs.ensures),
-                n_loops=len(fs.loops), path=fs.path, trusted=bool(fs.opts.get("external_body")))
+                n_loops=len(fs.loops), path=fs.path, trusted=bool(fs.opts.get("external_body")) and not fs.opts.get("proved_in"),
+                proved_in=fs.opts.get("proved_in"))
     return segs, info, parent_impl, sf
 
 
